@@ -162,15 +162,24 @@ impl AliasParser {
 
     fn is_feature(&self) -> bool{ matches!(self.curr_tkn.kind, AliasTokenKind::Feature(_)) }
 
-    fn curr_token_to_modifier(&self) -> (FeatType, Mods) {
+    fn curr_token_to_modifier(&self) -> Result<(FeatType, Mods), AliasSyntaxError> {
         // returns ARG ← ('+' / '-') [a-zA-Z]+ / TONE  
         match self.curr_tkn.kind {
             AliasTokenKind::Feature(feature) => {
                 let value = &self.curr_tkn.value;
                 match value.as_str() {
-                    "+" => (feature, Mods::Binary(BinMod::Positive)),
-                    "-" => (feature, Mods::Binary(BinMod::Negative)),
-                    _ if feature == FeatType::Supr(SupraType::Tone) => (feature, Mods::Number(value.parse().expect("value is ascii digit"))),
+                    "+" => Ok((feature, Mods::Binary(BinMod::Positive))),
+                    "-" => Ok((feature, Mods::Binary(BinMod::Negative))),
+                    _ if feature == FeatType::Supr(SupraType::Tone) => {
+                        // as in a rule, a tone has at most four digits (and must fit the tone type)
+                        if value.chars().filter(|c| *c != '0').count() > 4 {
+                            return Err(AliasSyntaxError::ToneTooBig(self.curr_tkn.clone()))
+                        }
+                        match value.parse() {
+                            Ok(n) => Ok((feature, Mods::Number(n))),
+                            Err(_) => Err(AliasSyntaxError::ToneTooBig(self.curr_tkn.clone())),
+                        }
+                    },
                     _ => {
                         unreachable!();
                     }
@@ -192,7 +201,7 @@ impl AliasParser {
                 continue;
             }
             if self.is_feature() {
-                let (ft, mods) = self.curr_token_to_modifier();
+                let (ft, mods) = self.curr_token_to_modifier()?;
                 match ft {
                     FeatType::Node(t) => args.nodes[t as usize] = if let Mods::Binary(b) = mods {
                         Some(ModKind::Binary(b))
